@@ -610,6 +610,7 @@ type replayCase struct {
 	Note    string      `json:"note,omitempty"`
 	Detail  any         `json:"detail,omitempty"`
 	Chain   *chainCase  `json:"chain,omitempty"`  // chain phase witness (chains.go)
+	Multi   *mcCase     `json:"multi,omitempty"`  // multi-cache phase witness (multicache.go)
 	Reload  *reloadInfo `json:"reload,omitempty"` // reload phase witness (reload.go)
 }
 
@@ -717,7 +718,7 @@ func main() {
 			defer pprof.StopCPUProfile()
 		}
 	}
-	rep.SetRule("families of queries (all 65536 types; all 65536 classes; type x class x AD/CD/DO grids; single- and double-bit neighbours of random (type,class,flags) triples; random triples; names: every wire length 1..255, every single-byte and two-byte label, one-byte substitutions, case variants, label-boundary / escaped-dot variants, escape-alphabet enumeration, extra leading/trailing labels, name x type x class grids; AD/CD/DO x layouts of Q()'s additional section (other records before/after the OPT); bypass messages; every query of every family also gets a random such layout) are run through the real cache plugin on fresh caches sized 4x the family, once in insertion order and once in reverse: pass 1 stores a unique marker per query, pass 2 replays all queries. One case = (question, order); non-trivial = the query was answered from the cache in pass 2 and the marker it carried was compared with its own (bypass cases: the message reached the terminal with no response set); distinct = distinct (name, type, class, AD, CD, DO, order). Chain phase (chains.go): the real cache inside sequences built from rule text with name-rewriting wrappers in front of it and/or behind it (the real redirect plugin: alias->target, alias->intermediate->target across the cache; an in-place lower-casing wrapper), `matches: has_resp / exec: accept` behind the cache, a stub upstream that answers with a marker naming the question IT was asked, a post-processing plugin that can fail after the response was set (also inside a background refresh), and in some layouts a hosts-like plugin in front of everything that already set a response for the client's own question; seeded scripts of client queries (aliases, intermediates, targets, unrelated names, case variants, name lengths over all key-buffer size classes, 6 types, IN/CH, AD/CD/DO, injected failures after / without a response) and lazy_cache_ttl scripts (entries go stale, their background refreshes are parked at the upstream while same-key-length and other queries pass, then finish; half of them on a single P); one case = one client query; every served response is judged: question section == client question and marker issued by the upstream for the question the rewriters lead to (or by the plugin in front for the client's name / the name the cache sees), with the client's type, class, AD/CD/DO; non-trivial = served from the cache, distinct = (layout, lazy, asker role, who stored the entry incl. failed chains / background refresh, fresh|stale, flags, type, class, key length). Reload phase (reload.go): every family x order is run once more across a dump -> load round trip: a fresh cache stores a seeded half S of the family (stored responses carry AD/CD/AA bits and no OPT | OPT | OPT+DO unrelated to the query's, derived from the query ID), is dumped (dump_file at Close | GET /dump) and the dump is loaded into another cache (dump_file at start | POST /load_dump into an empty cache | into a cache already holding the answers of the queries not in S | two generations of dump_file | a real mosdns instance built from a config map with cache+sequence plugins, shut down and started again | that instance's /plugins/<tag>/dump and /load_dump), 6 modes spread over the families; then ALL queries of the family are asked on the loaded cache: a query answered from it must carry its own marker or that of a query with the same name, type, class and AD/CD/DO; bypass messages must still bypass; one case = (question, order), non-trivial = answered from a loaded cache and the marker compared, distinct = 'reload/' + (name, type, class, AD, CD, DO, order). Families added with it (names2.go): names of every presentation-format length class (the plugin sees names as miekg text: 1..1004 characters for <= 255 wire bytes; targets around 256, 512, 768, the maximum, random others; three label layouts; mixes of plain, 2-character and 4-character escapes) x all 8 flag combinations x 2 (type, class) cells, and long names differing in one byte anywhere / in their last label x 2 flag combinations")
+	rep.SetRule("families of queries (all 65536 types; all 65536 classes; type x class x AD/CD/DO grids; single- and double-bit neighbours of random (type,class,flags) triples; random triples; names: every wire length 1..255, every single-byte and two-byte label, one-byte substitutions, case variants, label-boundary / escaped-dot variants, escape-alphabet enumeration, extra leading/trailing labels, name x type x class grids; AD/CD/DO x layouts of Q()'s additional section (other records before/after the OPT); bypass messages; every query of every family also gets a random such layout) are run through the real cache plugin on fresh caches sized 4x the family, once in insertion order and once in reverse: pass 1 stores a unique marker per query, pass 2 replays all queries. One case = (question, order); non-trivial = the query was answered from the cache in pass 2 and the marker it carried was compared with its own (bypass cases: the message reached the terminal with no response set); distinct = distinct (name, type, class, AD, CD, DO, order). Chain phase (chains.go): the real cache inside sequences built from rule text with name-rewriting wrappers in front of it and/or behind it (the real redirect plugin: alias->target, alias->intermediate->target across the cache; an in-place lower-casing wrapper), `matches: has_resp / exec: accept` behind the cache, a stub upstream that answers with a marker naming the question IT was asked, a post-processing plugin that can fail after the response was set (also inside a background refresh), and in some layouts a hosts-like plugin in front of everything that already set a response for the client's own question; seeded scripts of client queries (aliases, intermediates, targets, unrelated names, case variants, name lengths over all key-buffer size classes, 6 types, IN/CH, AD/CD/DO, injected failures after / without a response) and lazy_cache_ttl scripts (entries go stale, their background refreshes are parked at the upstream while same-key-length and other queries pass, then finish; half of them on a single P); one case = one client query; every served response is judged: question section == client question and marker issued by the upstream for the question the rewriters lead to (or by the plugin in front for the client's name / the name the cache sees), with the client's type, class, AD/CD/DO; non-trivial = served from the cache, distinct = (layout, lazy, asker role, who stored the entry incl. failed chains / background refresh, fresh|stale, flags, type, class, key length). Reload phase (reload.go): every family x order is run once more across a dump -> load round trip: a fresh cache stores a seeded half S of the family (stored responses carry AD/CD/AA bits and no OPT | OPT | OPT+DO unrelated to the query's, derived from the query ID), is dumped (dump_file at Close | GET /dump) and the dump is loaded into another cache (dump_file at start | POST /load_dump into an empty cache | into a cache already holding the answers of the queries not in S | two generations of dump_file | a real mosdns instance built from a config map with cache+sequence plugins, shut down and started again | that instance's /plugins/<tag>/dump and /load_dump), 6 modes spread over the families; then ALL queries of the family are asked on the loaded cache: a query answered from it must carry its own marker or that of a query with the same name, type, class and AD/CD/DO; bypass messages must still bypass; one case = (question, order), non-trivial = answered from a loaded cache and the marker compared, distinct = 'reload/' + (name, type, class, AD, CD, DO, order). Families added with it (names2.go): names of every presentation-format length class (the plugin sees names as miekg text: 1..1004 characters for <= 255 wire bytes; targets around 256, 512, 768, the maximum, random others; three label layouts; mixes of plain, 2-character and 4-character escapes) x all 8 flag combinations x 2 (type, class) cells, and long names differing in one byte anywhere / in their last label x 2 flag combinations." + multiRule)
 	rep.Assume("reload phase: a stored answer that is not found after the round trip is not a violation (the statement does not promise complete dumps); a job losing more than 1% of them is reported inconclusive because collisions could hide behind the misses")
 	rep.Assume("'query' = the message the cache plugin is given, qCtx.Q(): query_context does not forward the client's OPT/DO, so DO is varied on Q()'s own OPT; queries differing only in ID, RD, the client's OPT or the other records a plugin placed around Q()'s OPT may share an entry")
 	rep.Assume("names are compared byte-exactly on the wire (case variants and escaped-dot variants are different questions: the cached response carries the stored question section)")
@@ -734,6 +735,10 @@ func main() {
 		}
 		if c.Chain != nil {
 			replayChain(c.Chain, c.Key)
+			rep.Finish()
+		}
+		if c.Multi != nil {
+			replayMulti(c.Multi, c.Key)
 			rep.Finish()
 		}
 		f := &family{Name: c.Family, Via: c.Via, Lazy: c.Lazy}
@@ -753,6 +758,7 @@ func main() {
 	} else {
 		fams = buildFamilies(rep.Thorough(), rep.Seed)
 		runChains(rep.Thorough(), rep.Seed) // the cache inside realistic sequences (chains.go)
+		runMulti(rep.Thorough(), rep.Seed)  // several caches on one path with rewriting / forking plugins between them (multicache.go)
 	}
 
 	type task struct {
